@@ -528,7 +528,8 @@ impl Sim for SimE {
 
     fn plan(&self, rng: &mut Rng, sub: usize) -> ScenarioE {
         let n_inst = 1 + rng.usize(3);
-        let fee_bp = *rng.pick(&[0i64, 0, 10, 1000, 2500, 5000]);
+        // (7 and 33 bp make price x quantity x fee need 9 decimal places)
+        let fee_bp = *rng.pick(&[0i64, 0, 7, 10, 33, 1000, 2500, 5000]);
         let latency_ms = *rng.pick(&[0u64, 1, 2, 10, 100]);
         let init_bal_c: Vec<i64> = (0..3)
             .map(|a| match rng.below(4) {
@@ -556,7 +557,7 @@ impl Sim for SimE {
                 _ => {
                     let inst = if rng.chance(1, 12) { 3 + rng.usize(2) } else { rng.usize(n_inst) };
                     let buy = rng.chance(3, 5);
-                    let qty_m = *rng.pick(&[1000i64, 1000, 500, 2000, 250]);
+                    let qty_m = *rng.pick(&[1000i64, 1000, 500, 2000, 250, 125, 333]);
                     let mut price_c = rng.range(100, 30_000);
                     if buy && inst < n_inst && rng.chance(1, 3) {
                         // aim at the exactly-affordable boundary and one cent beyond it
